@@ -475,6 +475,46 @@ def _s4_literal_equality(program, res):
                     "but the second emits `LIMIT 2.0` and raises TypeError on Pandas", stores[0])
 
 
+def _s5_lossy_list_comparison(program, model, res):
+    """a field that holds a *list* (its order and repetitions are part of the step: join key pairs, order columns) is compared as a list.
+    Wrapping it in set / frozenset / dict / sorted before comparing loses order or repetitions: different steps compare equal."""
+    n = 0
+    for k in model.kinds.values():
+        eq = k.cls.methods.get("_equiv_nodes")
+        if eq is None:
+            continue
+        # list-valued fields: assigned in __init__ from a list display / comprehension / list(...)
+        list_fields = set()
+        for st in ast.walk(k.init.node):
+            if isinstance(st, ast.Assign) and isinstance(st.targets[0], ast.Attribute) and unparse(st.targets[0].value) == "self":
+                v = st.value
+                if isinstance(v, (ast.List, ast.ListComp)) or (isinstance(v, ast.Call) and dotted_name(v.func) == "list"):
+                    list_fields.add(st.targets[0].attr)
+        # ... or declared as List[...] in the class body, or asserted to be a List in the constructor
+        for st in k.cls.node.body:
+            if isinstance(st, ast.AnnAssign) and isinstance(st.target, ast.Name) and unparse(st.annotation).startswith(("List", "typing.List", "list")):
+                list_fields.add(st.target.id)
+        other = [p for p in eq.params() if p != "self"][0]
+        for c in ast.walk(eq.node):
+            if not (isinstance(c, ast.Compare) and len(c.ops) == 1 and isinstance(c.ops[0], (ast.Eq, ast.NotEq))):
+                continue
+            for side in (c.left, c.comparators[0]):
+                for w in ast.walk(side):
+                    if isinstance(w, ast.Call) and dotted_name(w.func) in ("set", "frozenset", "dict", "sorted", "collections.Counter", "Counter"):
+                        inner = {a.attr for a in ast.walk(w) if isinstance(a, ast.Attribute) and isinstance(a.value, ast.Name) and a.value.id in ("self", other)}
+                        hit = sorted(inner & list_fields)
+                        if hit:
+                            n += 1
+                            direct = any(isinstance(c2, ast.Compare) and {unparse(c2.left), unparse(c2.comparators[0])} == {f"self.{hit[0]}", f"{other}.{hit[0]}"}
+                                         for c2 in ast.walk(eq.node))
+                            if not direct:
+                                res.fail_at("C11-S5", eq, f"list-field-compared-lossily:{hit[0]}",
+                                            f"{k.name}._equiv_nodes compares `{unparse(w)[:60]}`: {dotted_name(w.func)}() forgets the order and the repetitions of the list field "
+                                            f"{hit[0]} — on=[('a','x'),('a','y')] compares equal to on=[('a','y')] (different rows), and key pairs in another order compare "
+                                            f"equal although the ON clauses differ", w)
+    res.ok("C11-S5", f"no list-valued field is compared through an order- or repetition-losing wrapper ({n} wrapped comparisons looked at)")
+
+
 def run(program, res, tier):
     res.rule("C11-S1", "every semantic field is examined on every path on which an equality method accepts")
     res.rule("C11-S2", "comparisons pair the same field on both sides; type test two-sided")
@@ -483,6 +523,8 @@ def run(program, res, tier):
     res.rule("C11-S4", "literal equality distinguishes what prints differently (type and repr), and is reflexive")
     _s4_literal_equality(program, res)
     model = NodeModel(program)
+    res.rule("C11-S5", "list-valued fields are compared as lists")
+    _s5_lossy_list_comparison(program, model, res)
     for (kn, f, why) in model.confirm_derived():
         res.fail("C11-S1", f"view_representations:{kn}.__init__", f"derived:{f}", why,
                  "data_algebra/view_representations.py", model.kinds[kn].init.line)
